@@ -29,8 +29,11 @@ def _small(rng, p_none=0.5):
     return rng.choice([0, 0, 1, 1, 2, 3])
 
 
-def gen_target(rng):
-    kind = rng.choice(["min", "min", "node", "rand", "rand", "state"])
+def gen_target(rng, control=False):
+    kinds = ["min", "min", "node", "rand", "rand", "state"]
+    if control:
+        kinds = ["min"] * 6 + ["node"] * 2 + ["rand"] * 2 + ["state"]
+    kind = rng.choice(kinds)
     return [kind, rng.randrange(1 << 20), rng.randint(1, 4)]
 
 
